@@ -161,6 +161,14 @@ def driver_env(fw=None, nvx=None, nvx_dir=None, seed=0, extra=None):
     return e
 
 
+class DriverVerdict(Exception):
+    """a driver died in a way that is a statement about the library, not about the machinery (see run_driver)"""
+
+    def __init__(self, what, detail):
+        Exception.__init__(self, what)
+        self.what, self.detail = what, detail
+
+
 ESCAPE_LOG = []      # exceptions that escaped a timer / connection_lost callback in some driver of this check (see harness/fw.py)
 
 
@@ -181,8 +189,21 @@ def run_driver(module, args=(), env=None, timeout=3600, input_obj=None):
     p = subprocess.run(cmd, cwd=VERIF, env=e, stdout=subprocess.PIPE, stderr=subprocess.PIPE, timeout=timeout)
     try:
         if p.returncode != 0 or not os.path.exists(out):
-            raise MachineryError("driver %s %s failed (exit %s):\n%s" % (
-                module, list(args), p.returncode, p.stderr.decode("utf8", "replace")[-4000:]))
+            err = p.stderr.decode("utf8", "replace")
+            msg = "driver %s %s failed (exit %s):\n%s" % (module, list(args), p.returncode, err[-4000:])
+            # A driver that dies is normally a machinery failure.  Two cases are verdicts about the library instead (neither
+            # ever happens on the unchanged tree): the exception was raised inside the library / its C modules and nothing
+            # in between handled it, or one of the driver's guard assertions about the library's behaviour failed.
+            tb = err[err.rfind("Traceback (most recent call last)"):] if "Traceback (most recent call last)" in err else ""
+            files = [ln.strip() for ln in tb.splitlines() if ln.strip().startswith('File "')]
+            last = files[-1] if files else ""
+            exc_line = tb.strip().splitlines()[-1] if tb.strip() else ""
+            in_lib = (os.path.join(REPO, "src") in last) or ("_nvx_" in last)
+            guard = exc_line.startswith("AssertionError") and os.path.join("harness", "drivers") in last
+            if in_lib or guard:
+                raise DriverVerdict(("uncaught exception from the library" if in_lib else "driver guard assertion failed") +
+                                    " in %s (%s): %s" % (module, e.get("VERIF_FW"), exc_line[:300]), msg)
+            raise MachineryError(msg)
         with open(out) as f:
             doc = json.load(f)
         for x in doc.get("_escapes") or []:
